@@ -1,7 +1,8 @@
 """C14 — primary and unique keys are never silently duplicated.
 
 Tie (correspondence): random entity models (explicit / auto / composite primary key, unique attributes, composite unique
-keys, optional key attributes with None) are built as real Pony classes over a SQLite FILE database — a quarter of them over a LEGACY
+keys, optional key attributes with None; in a third of the constraint-enforcing worlds single-table inheritance with attributes,
+unique=True and composite_key declared in the DERIVED entity) are built as real Pony classes over a SQLite FILE database — a quarter of them over a LEGACY
 table without database-level UNIQUE constraints (only the session's key indexes can report a conflict; oracle only).  A random history of
 several db_sessions runs on real Pony: constructor calls (valid and conflicting), assignments and set(**kw) that move or
 swap key values between objects (directly and through a temporary value), deletes followed by re-creation of the same key,
@@ -38,6 +39,17 @@ def gen_spec(rng):
     if spec['pk'] in ('relpk', 'relpk1'): spec['pk'] = 'composite'
     # a legacy table without database-level UNIQUE constraints: only Pony's own key indexes stand between two objects and one key
     spec['legacy'] = rng.random() < 0.25
+    # single-table inheritance with attributes, unique=True and composite_key declared IN THE DERIVED entity
+    if not spec['legacy'] and rng.random() < 0.35:
+        n = spec['nattrs']
+        spec['parents'] = [None, 0]
+        spec['sub_unique'] = [rng.random() < 0.7 for _ in range(rng.choice([1, 1, 2]))]
+        m = n + len(spec['sub_unique'])
+        spec['sub_ckeys'] = []
+        if rng.random() < 0.5:
+            k = [rng.randrange(n, m)] + rng.sample(range(m), 1)        # a derived attribute + any attribute (also an inherited one)
+            if len(set(k)) == 2: spec['sub_ckeys'].append(k)
+        if not any(spec['sub_unique']) and not spec['sub_ckeys']: spec['sub_unique'][0] = True
     return spec
 
 
@@ -57,6 +69,11 @@ class W14(c11.World):
 
     def cols(self):
         return self.pk_cols + ['a%d' % i for i in range(len(self.attrs))]
+
+    def flat_schema(self):
+        """for the table + session model every object is of ONE class that has all attributes (an attribute a class does not
+        declare is simply never set: None / not loaded, which exempts its keys)"""
+        return dict(self.model_schema, parent=[None])
 
     def read_table(self, con):
         sql = 'select %s from "%s" order by %s' % (', '.join('"%s"' % c for c in self.cols()), self.table, ', '.join('"%s"' % c for c in self.pk_cols))
@@ -187,6 +204,10 @@ class W14(c11.World):
     def op_ext14(self, op):
         cols = self.cols()
         vals = list(op['pk']) + list(op['vals'])
+        if self.hier:
+            # a row of the derived entity when it carries a derived attribute, else of the root
+            derived = any(v is not None for i, v in enumerate(op['vals']) if self.attr_cls[i] == 1) or op.get('derived')
+            cols = cols + ['classtype']; vals = vals + [self.discr_values[1 if derived else 0]]
         try:
             self.ext.execute('insert into "%s" (%s) values (%s)' % (self.table, ', '.join('"%s"' % c for c in cols), ', '.join('?' * len(cols))), vals)
             err = None
@@ -225,6 +246,7 @@ class W14(c11.World):
             for o in self.touched_safe():
                 if not any(o is x for x in self.txn_written): self.txn_written.append(o)
         try:
+            if k == 'set' and any(not self.has_attr(self.obj(op['o']), a) for a, _ in op['changes']): raise c11.StaleOp()
             if k in ('create', 'set', 'delete', 'read'):
                 n0 = len(self.objs)
                 r = getattr(self, 'op_' + k)(op)
@@ -232,7 +254,9 @@ class W14(c11.World):
                     # the columns the session itself assigned in this transaction (the commit oracle compares exactly these)
                     if k == 'create': self.assigned[id(self.objs[-1])] = set(range(len(self.attrs)))
                     elif k == 'set': self.assigned.setdefault(id(self.objs[op['o']]), set()).update(a for a, _ in op['changes'])
-                return {'err': r['err'], 'mop': {'k': 'sess', 'op': r['mops'][0]}}
+                mop = dict(r['mops'][0]);
+                if 'cls' in mop: mop['cls'] = 0
+                return {'err': r['err'], 'mop': {'k': 'sess', 'op': mop}}
             return getattr(self, 'op_' + k + '14')(op)
         except c11.StaleOp:
             return {'skip': True}
@@ -260,19 +284,30 @@ def gen_op(rng, w, since_commit):
     if released is not None:
         # the program caught a CacheIndexError and goes on: another object now asks for the value the refused object still holds
         w.released = None
-        ro, attrs = released
+        ro, attrs, asked = released
         if ro < len(objs) and objs[ro]._status_ not in c11.DEL and objs[ro]._vals_ and rng.random() < 0.7:
             cur = [[a, objs[ro]._vals_.get(w.attrs[a])] for a in attrs if objs[ro]._vals_.get(w.attrs[a]) is not None]
+            if rng.random() < 0.5:
+                # … or for the tuple that was asked for (and is still held by the object that made the assignment fail): the other
+                # key parts are taken from the refused object
+                key = next((k for k in w.keys if any(a in k for a, _ in asked)), None)
+                if key is not None:
+                    d = dict((a, v) for a, v in asked)
+                    cur = [[a, d.get(a, objs[ro]._vals_.get(w.attrs[a]))] for a in key]
+                    cur = [[a, v] for a, v in cur if v is not None]
             if cur:
                 others = [i for i in live if i != ro]
                 if others and rng.random() < 0.5: return {'k': 'set', 'o': rng.choice(others), 'changes': cur, 'via': 'set'}
-                kw = w.rand_create_kw(rng)
+                cls = 1 if (w.hier and (any(w.attr_cls[a] == 1 for a, _ in cur) or rng.random() < 0.5)) else 0
+                kw = w.rand_create_kw(rng, cls=cls)
                 for a, v in cur: kw['a%d' % a] = v
-                return {'k': 'create', 'cls': 0, 'kw': kw}
+                return {'k': 'create', 'cls': cls, 'kw': kw}
     if r < 0.24 or not objs:
-        return {'k': 'create', 'cls': 0, 'kw': w.rand_create_kw(rng)}
+        cls = 1 if (w.hier and rng.random() < 0.65) else 0
+        return {'k': 'create', 'cls': cls, 'kw': w.rand_create_kw(rng, cls=cls)}
     o = rng.choice(live) if live and rng.random() < 0.92 else rng.randrange(len(objs))
-    keyattrs = sorted({a for key in w.keys for a in key})
+    keyattrs = sorted({a for key in w.keys for a in key if w.has_attr(objs[o], a)})
+    own = [a for a in range(n) if w.has_attr(objs[o], a)]
     if r < 0.46:
         if keyattrs and len(live) >= 2 and rng.random() < 0.45:
             # move / swap: give `o` the key value another object holds
@@ -282,12 +317,12 @@ def gen_op(rng, w, since_commit):
             if v is None: v = w.rand_val(rng)
             return {'k': 'set', 'o': o, 'changes': [[a, v]], 'via': rng.choice(['attr', 'set'])}
         k = 1 if rng.random() < 0.6 else 2
-        attrs = rng.sample(range(n), min(k, n))
+        attrs = rng.sample(own, min(k, len(own)))
         if keyattrs and rng.random() < 0.7: attrs[0] = rng.choice(keyattrs); attrs = list(dict.fromkeys(attrs))
         ch = [[a, rng.choice([None, 0, 1, 2, 3, 8, 9])] for a in attrs]
         return {'k': 'set', 'o': o, 'changes': ch, 'via': 'attr' if len(ch) == 1 and rng.random() < 0.6 else 'set'}
     if r < 0.54: return {'k': 'delete', 'o': o}
-    if r < 0.58 and objs[o]._vals_: return {'k': 'read', 'o': o, 'a': rng.randrange(n)}
+    if r < 0.58 and objs[o]._vals_: return {'k': 'read', 'o': o, 'a': rng.choice(own)}
     if r < 0.67: return {'k': 'fetch', 'pk': w.pkl(objs[o]) if objs[o]._pkval_ is not None and rng.random() < 0.4 else w.rand_pk(rng), 'how': rng.choice(['item', 'get'])}
     if r < 0.70: return {'k': 'flush'}
     if r < 0.76:
@@ -302,6 +337,7 @@ def gen_op(rng, w, since_commit):
                 if v is not None: vals[a] = v
         pk = w.rand_pk(rng)
         if w.auto and rng.random() < 0.5: pk = [rng.randrange(1, 12)]
+        if w.hier and rng.random() < 0.4: vals = [None if w.attr_cls[i] == 1 else v for i, v in enumerate(vals)]      # a row of the root entity
         return {'k': 'ext', 'pk': pk, 'vals': vals}
     if r < 0.93 and objs:
         # the second writer changes or removes a row the session knows (or any row)
@@ -389,6 +425,16 @@ DIRECTED = [
     {'spec': {'nattrs': 2, 'unique': [False, False], 'ckeys': [[0, 1]], 'pk': 'explicit', 'parents': [None], 'with_h': False, 'legacy': True},
      'sessions': [[{'k': 'create', 'cls': 0, 'kw': {'id': 1, 'a0': 1, 'a1': 1}}, {'k': 'create', 'cls': 0, 'kw': {'id': 2, 'a0': 2, 'a1': 1}},
                    {'k': 'set', 'o': 0, 'changes': [[0, 2]], 'via': 'attr'}, {'k': 'create', 'cls': 0, 'kw': {'id': 3, 'a0': 1, 'a1': 1}}, {'k': 'commit'}]]},
+    # keys declared in a DERIVED entity (single-table inheritance): a new object / an assignment that clashes with a row committed by
+    # an earlier session and never loaded must be refused at flush; the committed rows never share the derived unique / composite key
+    {'spec': {'nattrs': 1, 'unique': [False], 'ckeys': [], 'pk': 'explicit', 'parents': [None, 0], 'with_h': False,
+              'sub_unique': [True, False], 'sub_ckeys': [[2, 0]]},
+     'sessions': [[{'k': 'create', 'cls': 1, 'kw': {'id': 1, 'a0': 1, 'a1': 5, 'a2': 7}}, {'k': 'create', 'cls': 0, 'kw': {'id': 2, 'a0': 1}}, {'k': 'commit'}],
+                  [{'k': 'create', 'cls': 1, 'kw': {'id': 3, 'a0': 2, 'a1': 5}}, {'k': 'commit'}],
+                  [{'k': 'create', 'cls': 1, 'kw': {'id': 4, 'a0': 1, 'a2': 7}}, {'k': 'commit'}],
+                  [{'k': 'fetch', 'pk': [2], 'how': 'item'}, {'k': 'create', 'cls': 1, 'kw': {'id': 5, 'a0': 3, 'a1': 6, 'a2': 7}},
+                   {'k': 'set', 'o': 1, 'changes': [[1, 5]], 'via': 'attr'}, {'k': 'commit'}],
+                  [{'k': 'ext', 'pk': [6], 'vals': [9, 5, None]}, {'k': 'ext', 'pk': [7], 'vals': [1, None, None]}, {'k': 'fetch', 'pk': [1], 'how': 'get'}, {'k': 'commit'}]]},
     # a flush that stops half-way, caught by the program, then commit
     {'spec': {'nattrs': 1, 'unique': [True], 'ckeys': [], 'pk': 'explicit', 'parents': [None], 'with_h': False},
      'sessions': [[{'k': 'ext', 'pk': [9], 'vals': [3]}, {'k': 'create', 'cls': 0, 'kw': {'id': 1, 'a0': 1}}, {'k': 'create', 'cls': 0, 'kw': {'id': 2, 'a0': 3}},
@@ -401,8 +447,9 @@ def run_history(spec, sessions=None, rng=None, nsess=0, nops=0, ctx=None, workdi
     path = os.path.join(workdir, 'h%d.sqlite' % random.getrandbits(40))
     w = W14(spec, path)
     trace = []; findings = []
+    ddl_bad = []     # reported when the history itself shows no data-level consequence
     for key, ok in ([] if spec.get('legacy') else w.ddl_declares_keys()):
-        if not ok: findings.append(('ddl-lacks-unique-constraint', {'key': key}, len(trace)))
+        if not ok: ddl_bad.append(('ddl-lacks-unique-constraint', {'key': key}, 0))
     baseline = w.committed()          # the table at the last successful commit (plus the second writer's rows)
     count_s = 0
     try:
@@ -440,7 +487,7 @@ def run_history(spec, sessions=None, rng=None, nsess=0, nops=0, ctx=None, workdi
                         if ctx: ctx.count('op-not-applicable:' + op['k'])
                         if pending is None and k > nops: break
                         continue
-                    if op['k'] == 'set' and res['err'] == 'CacheIndexError': w.released = (op['o'], [a for a, _ in op['changes']])
+                    if op['k'] == 'set' and res['err'] == 'CacheIndexError': w.released = (op['o'], [a for a, _ in op['changes']], [list(c) for c in op['changes']])
                     snap = w.snapshot14()
                     trace.append((op, res, snap))
                     # ---- the property oracle
@@ -505,6 +552,7 @@ def run_history(spec, sessions=None, rng=None, nsess=0, nops=0, ctx=None, workdi
         for suffix in ('', '-journal'):
             try: os.remove(path + suffix)
             except OSError: pass
+    if not findings and ddl_bad: findings = ddl_bad
     return w, trace, findings
 
 
@@ -576,6 +624,12 @@ def compare(ctx, w, spec, trace, steps):
             ctx.divergence('number of session objects differs', hist(i), model=len(mo), impl=len(ro)); return
         for j, (a, b) in enumerate(zip(mo, ro)):
             a = {k: a[k] for k in b}
+            if w.hier:
+                # classes are flattened in the model; attributes the object's class does not declare are masked
+                a['cls'] = b['cls']
+                for f in ('vals', 'dbvals'):
+                    a[f] = ['-' if y == '-' else x for x, y in zip(a[f], b[f])]
+                a['rbits'] = [False if y == '-' else x for x, y in zip(a['rbits'], b['vals'])]
             if a != b:
                 ctx.divergence('session object differs', hist(i), model=dict(a, obj=j), impl=dict(b, obj=j)); return
         if sorted(m['pk']) != snap['pk'] or [sorted(x) for x in m['ixs']] != snap['ixs']:
@@ -607,7 +661,15 @@ def run_jobs(ctx, rng, jobs, workdir):
                 w, trace, findings = run_history(spec, sessions=sessions, rng=sub, nsess=sub.choice([1, 2, 2, 3]), nops=ctx.scale(9, 14), ctx=ctx, workdir=workdir)
             except core.ERDiagramError as e:
                 ctx.count('model-rejected:' + type(e).__name__); continue
-            ctx.count('model:pk=%s,keys=%d%s' % (spec['pk'], len(w.keys), ',directed' if sessions else ''))
+            except Exception as e:
+                # an exception that escapes from the real code outside a recorded call is a verdict, not an engine crash
+                import traceback
+                ctx.count('exception-escaped:' + type(e).__name__)
+                ctx.divergence('an exception escaped from the real code while the history ran', {'spec': spec, 'sessions': sessions},
+                               impl=[type(e).__name__, str(e)[:300], traceback.format_exc()[-600:]])
+                continue
+            ctx.count('model:pk=%s,keys=%d%s%s%s' % (spec['pk'], len(w.keys), ',directed' if sessions else '', ',legacy-table' if spec.get('legacy') else '',
+                                                     ',keys-in-derived-entity' if spec.get('sub_unique') else ''))
             for op, res, snap in trace:
                 if op['k'] == 'end': continue
                 ctx.count('call:%s:%s' % (op['k'], res['err'] or 'ok'))
@@ -618,7 +680,7 @@ def run_jobs(ctx, rng, jobs, workdir):
             batch.append((w, spec, trace))
         if not ctx.driver.ok:
             ctx.note('driver unavailable: the correspondence part is skipped, the oracle still ran'); return
-        outs = ctx.driver('C14', [{'op': 'run', 'schema': w.model_schema, 'ops': [t[1]['mop'] for t in trace]} for w, _, trace in batch])
+        outs = ctx.driver('C14', [{'op': 'run', 'schema': w.flat_schema(), 'ops': [t[1]['mop'] for t in trace]} for w, _, trace in batch])
         for (w, spec, trace), out in zip(batch, outs):
             if spec.get('legacy'):
                 ctx.count('legacy-table-world:oracle-only')         # the model's table enforces the constraints the legacy table lacks
